@@ -56,10 +56,8 @@ class Gen:
             # names that differ only in case are different names (tables, nicknames, variables);
             # only for checks that capture rows directly: SQL outputs cannot hold tables B and b
             self.features.add("case_twin_names")
-            # no random_reference here: the row-history store is an sqlite database, whose table names are
-            # case-insensitive, so targets `B` and `b` collide inside it (OperationalError "table b already
-            # exists" - the same root cause as the open finding C20-S1, the name spliced into SQL)
-            self.w["randref"] = 0.0
+            # (with random_reference too since /repo 5f8efc8: before, targets `B` and `b` collided inside the
+            # row-history store, an sqlite database whose table names are case-insensitive)
             self.TABLES, self.NICKS = ["A", "a", "B", "b"], ["aa", "aA", "bb"]
             self.FIELDS, self.VARS, self.OPTS = FIELDS, ["v0", "V0", "v1"], OPTS
         else:
